@@ -454,6 +454,10 @@ class ModelWorld(BaseWorld):
 
     # ---------------------------------------------------------------- oracles
     def check_model(self, mi, raised=False, where=''):
+        if self.prop == 'setup':
+            # model builder for other worlds: nothing is judged here, and nothing is
+            # called on the model that the scenario itself would not call
+            return
         model, ref = self.models[mi], self.refs[mi]
         P = self.prop if self.prop in ('C05',) else 'C05'
         o = call(observe_model, model, self.L)
